@@ -1,0 +1,327 @@
+// Copyright 2026 The Go Authors. All rights reserved.
+// Use of this source code is governed by a BSD-style
+// license that can be found in the LICENSE file.
+
+//go:build verif
+
+// This file is only compiled with the "verif" build tag. It gives the
+// deterministic-simulation harnesses of the verification effort access to
+// unexported seams of this package (raw transports, raw packet access after a
+// real key exchange, a mux over a caller-supplied packet connection, key
+// exchange observation). It adds code only; nothing here is reachable in a
+// normal build.
+
+package ssh
+
+import (
+	"crypto"
+	"errors"
+	"io"
+	"net"
+	"sort"
+	"sync"
+)
+
+// VerifKexInfo describes one completed key exchange computation on one side.
+type VerifKexInfo struct {
+	Server    bool
+	Algo      string
+	K, H      []byte
+	HostKey   []byte
+	Signature []byte
+	Hash      crypto.Hash
+}
+
+var (
+	verifKexMu       sync.Mutex
+	verifKexObserver func(VerifKexInfo)
+	verifKexWrapped  bool
+)
+
+type verifKexWrap struct {
+	name  string
+	inner kexAlgorithm
+}
+
+func (w *verifKexWrap) report(server bool, r *kexResult) {
+	verifKexMu.Lock()
+	f := verifKexObserver
+	verifKexMu.Unlock()
+	if f != nil && r != nil {
+		f(VerifKexInfo{Server: server, Algo: w.name, K: dup(r.K), H: dup(r.H), HostKey: dup(r.HostKey), Signature: dup(r.Signature), Hash: r.Hash})
+	}
+}
+
+func (w *verifKexWrap) Server(p packetConn, rand io.Reader, magics *handshakeMagics, s AlgorithmSigner, algo string) (*kexResult, error) {
+	r, err := w.inner.Server(p, rand, magics, s, algo)
+	if err == nil {
+		w.report(true, r)
+	}
+	return r, err
+}
+
+func (w *verifKexWrap) Client(p packetConn, rand io.Reader, magics *handshakeMagics) (*kexResult, error) {
+	r, err := w.inner.Client(p, rand, magics)
+	if err == nil {
+		w.report(false, r)
+	}
+	return r, err
+}
+
+// VerifObserveKex installs f as observer of every key exchange result computed
+// by either side (nil removes it).
+func VerifObserveKex(f func(VerifKexInfo)) {
+	verifKexMu.Lock()
+	defer verifKexMu.Unlock()
+	if !verifKexWrapped {
+		verifKexWrapped = true
+		for name, k := range kexAlgoMap {
+			kexAlgoMap[name] = &verifKexWrap{name: name, inner: k}
+		}
+	}
+	verifKexObserver = f
+}
+
+// VerifKexNames returns the names of all key exchange methods the package
+// implements.
+func VerifKexNames() []string {
+	var out []string
+	for name := range kexAlgoMap {
+		out = append(out, name)
+	}
+	sort.Strings(out)
+	return out
+}
+
+// VerifCipherNames returns all cipher names the package implements.
+func VerifCipherNames() []string {
+	var out []string
+	for name := range cipherModes {
+		out = append(out, name)
+	}
+	sort.Strings(out)
+	return out
+}
+
+// VerifMACNames returns all MAC names the package implements.
+func VerifMACNames() []string {
+	var out []string
+	for name := range macModes {
+		out = append(out, name)
+	}
+	sort.Strings(out)
+	return out
+}
+
+// VerifIsAEAD reports whether the cipher carries its own authentication.
+func VerifIsAEAD(cipher string) bool { return aeadCiphers[cipher] }
+
+// VerifMaxPacket is the largest payload the packet layer accepts.
+const VerifMaxPacket = maxPacket
+
+// VerifTransport is a raw packet transport (no handshake goroutines) whose
+// keys are set by the caller.
+type VerifTransport struct{ t *transport }
+
+// VerifNewTransport wraps rwc in the package's packet transport.
+func VerifNewTransport(rwc io.ReadWriteCloser, rand io.Reader, isClient bool) *VerifTransport {
+	return &VerifTransport{newTransport(rwc, rand, isClient)}
+}
+
+// PrepareKeys derives keys for both directions from (K, H, sessionID) exactly
+// as a key exchange would; they take effect in a direction when msgNewKeys is
+// written or read in that direction.
+func (v *VerifTransport) PrepareKeys(c2s, s2c DirectionAlgorithms, k, h, sessionID []byte, hash crypto.Hash) error {
+	algs := &NegotiatedAlgorithms{Read: c2s, Write: s2c}
+	if v.t.isClient {
+		algs.Read, algs.Write = s2c, c2s
+	}
+	return v.t.prepareKeyChange(algs, &kexResult{K: k, H: h, SessionID: sessionID, Hash: hash})
+}
+
+func (v *VerifTransport) WritePacket(p []byte) error  { return v.t.writePacket(p) }
+func (v *VerifTransport) ReadPacket() ([]byte, error) { return v.t.readPacket() }
+func (v *VerifTransport) Close() error                { return v.t.Close() }
+
+// Seq returns the read and write sequence numbers.
+func (v *VerifTransport) Seq() (read, write uint32) { return v.t.reader.seqNum, v.t.writer.seqNum }
+
+// SetSeq sets the read and write sequence numbers.
+func (v *VerifTransport) SetSeq(read, write uint32) {
+	v.t.reader.seqNum, v.t.writer.seqNum = read, write
+}
+
+// SetStrict switches strict key exchange mode (sequence numbers reset at
+// msgNewKeys) on without the sequence number check of setStrictMode.
+func (v *VerifTransport) SetStrict(on bool) { v.t.strictMode = on }
+
+// VerifRawConn is a connection on which the real version exchange and the
+// real initial key exchange have been performed; afterwards the caller reads
+// and writes raw SSH packets (through the real handshakeTransport, so
+// re-keying keeps working).
+type VerifRawConn struct {
+	t             *handshakeTransport
+	conn          net.Conn
+	ClientVersion []byte
+	ServerVersion []byte
+}
+
+// VerifRawClient performs the client side of version exchange and key
+// exchange on c.
+func VerifRawClient(c net.Conn, addr string, config *ClientConfig) (*VerifRawConn, error) {
+	fullConf := *config
+	fullConf.SetDefaults()
+	if fullConf.HostKeyCallback == nil {
+		return nil, errors.New("ssh: must specify HostKeyCallback")
+	}
+	r := &VerifRawConn{conn: c}
+	if fullConf.ClientVersion != "" {
+		r.ClientVersion = []byte(fullConf.ClientVersion)
+	} else {
+		r.ClientVersion = []byte(packageVersion)
+	}
+	var err error
+	r.ServerVersion, err = exchangeVersions(c, r.ClientVersion)
+	if err != nil {
+		return nil, err
+	}
+	r.t = newClientTransport(newTransport(c, fullConf.Rand, true), r.ClientVersion, r.ServerVersion, &fullConf, addr, c.RemoteAddr())
+	if err := r.t.waitSession(); err != nil {
+		return nil, err
+	}
+	return r, nil
+}
+
+// VerifRawServer performs the server side of version exchange and key
+// exchange on c.
+func VerifRawServer(c net.Conn, config *ServerConfig) (*VerifRawConn, error) {
+	fullConf := *config
+	fullConf.SetDefaults()
+	if len(fullConf.hostKeys) == 0 {
+		return nil, errors.New("ssh: server has no host keys")
+	}
+	r := &VerifRawConn{conn: c}
+	if fullConf.ServerVersion != "" {
+		r.ServerVersion = []byte(fullConf.ServerVersion)
+	} else {
+		r.ServerVersion = []byte(packageVersion)
+	}
+	var err error
+	r.ClientVersion, err = exchangeVersions(c, r.ServerVersion)
+	if err != nil {
+		return nil, err
+	}
+	r.t = newServerTransport(newTransport(c, fullConf.Rand, false), r.ClientVersion, r.ServerVersion, &fullConf)
+	if err := r.t.waitSession(); err != nil {
+		return nil, err
+	}
+	return r, nil
+}
+
+func (r *VerifRawConn) ReadPacket() ([]byte, error) { return r.t.readPacket() }
+func (r *VerifRawConn) WritePacket(p []byte) error  { return r.t.writePacket(p) }
+func (r *VerifRawConn) SessionID() []byte           { return r.t.getSessionID() }
+func (r *VerifRawConn) Close() error                { return r.t.Close() }
+func (r *VerifRawConn) RequestKeyChange()           { r.t.requestKeyExchange() }
+
+// Algorithms returns the negotiated algorithms.
+func (r *VerifRawConn) Algorithms() NegotiatedAlgorithms { return r.t.getAlgorithms() }
+
+// VerifRequestKeyChange asks the transport under c (a Conn returned by
+// NewClientConn or NewServerConn, or an *ssh.Client) to start a key exchange.
+func VerifRequestKeyChange(c Conn) error {
+	var cn *connection
+	switch x := c.(type) {
+	case *connection:
+		cn = x
+	case *ServerConn:
+		cn, _ = x.Conn.(*connection)
+	case *Client:
+		cn, _ = x.Conn.(*connection)
+	}
+	if cn == nil {
+		return errors.New("ssh: not a connection of this package")
+	}
+	ht, ok := cn.transport.(*handshakeTransport)
+	if !ok {
+		return errors.New("ssh: no handshake transport")
+	}
+	ht.requestKeyExchange()
+	return nil
+}
+
+// VerifSendPacket writes a raw packet on the transport under c.
+func VerifSendPacket(c Conn, p []byte) error {
+	var cn *connection
+	switch x := c.(type) {
+	case *connection:
+		cn = x
+	case *ServerConn:
+		cn, _ = x.Conn.(*connection)
+	case *Client:
+		cn, _ = x.Conn.(*connection)
+	}
+	if cn == nil {
+		return errors.New("ssh: not a connection of this package")
+	}
+	return cn.transport.writePacket(p)
+}
+
+// VerifPacketConn is a packet-level connection supplied by a harness.
+type VerifPacketConn interface {
+	WritePacket(p []byte) error
+	ReadPacket() ([]byte, error)
+	Close() error
+}
+
+type verifPacketAdapter struct {
+	p         VerifPacketConn
+	sessionID []byte
+}
+
+func (a *verifPacketAdapter) writePacket(p []byte) error          { return a.p.WritePacket(p) }
+func (a *verifPacketAdapter) readPacket() ([]byte, error)         { return a.p.ReadPacket() }
+func (a *verifPacketAdapter) Close() error                        { return a.p.Close() }
+func (a *verifPacketAdapter) getAlgorithms() NegotiatedAlgorithms { return NegotiatedAlgorithms{} }
+func (a *verifPacketAdapter) getSessionID() []byte                { return a.sessionID }
+func (a *verifPacketAdapter) waitSession() error                  { return nil }
+
+type verifNetConn struct {
+	net.Conn
+	p VerifPacketConn
+}
+
+func (c verifNetConn) Close() error { return c.p.Close() }
+
+// VerifNewMuxConn runs the connection protocol (mux, channels) of this
+// package directly over p, without transport or authentication.
+func VerifNewMuxConn(p VerifPacketConn, meta net.Conn) (Conn, <-chan NewChannel, <-chan *Request) {
+	a := &verifPacketAdapter{p: p, sessionID: []byte("verif-session")}
+	conn := &connection{transport: a, sshConn: sshConn{conn: verifNetConn{meta, p}, user: "verif", sessionID: a.sessionID}}
+	conn.mux = newMux(a)
+	return conn, conn.mux.incomingChannels, conn.mux.incomingRequests
+}
+
+// VerifPendingPackets returns how many packets the transport under c has
+// queued behind a running key exchange (a coverage probe). It does not take
+// the transport's lock: it is only meaningful while no goroutine of the
+// connection is running, i.e. under the simulator at quiescence.
+func VerifPendingPackets(c Conn) int {
+	var cn *connection
+	switch x := c.(type) {
+	case *connection:
+		cn = x
+	case *ServerConn:
+		cn, _ = x.Conn.(*connection)
+	case *Client:
+		cn, _ = x.Conn.(*connection)
+	}
+	if cn == nil {
+		return -1
+	}
+	ht, ok := cn.transport.(*handshakeTransport)
+	if !ok {
+		return -1
+	}
+	return len(ht.pendingPackets)
+}
